@@ -29,6 +29,9 @@ NAMES = ["x", "x.y", ".x", "x.", "..x", "x..", "a b", "a%20b", "a%2Fb", "%", "%2
          "😀", "x.tar.gz", "...", "a%zz", "%2E", "%2e%2e", " ", "\x00"]
 SUFFIXES = [".x", ".tar", ".a b", ".é", ".%20", ".a.b", ".tar.gz", ".a.", ".", "", ".x/y", "x", ".😀", ".%", "..", ".a%2Fb", ".#?"]
 
+# parts also run by 4 threads at once in one process (runner adds the jobs; see yv/ctx.py Ctx.threaded)
+SHARED = [("algebra", {"n": 1200}, {"n": 25000})]
+
 
 def plan(tier, seed):
     thorough = tier == "thorough"
